@@ -8,6 +8,7 @@ import Mathlib.Data.Complex.Basic
 import Mathlib.Analysis.SpecialFunctions.Complex.Circle
 import Mathlib.RingTheory.RootsOfUnity.Complex
 import AoVerif.Lemmas.DFT
+import AoVerif.Lemmas.DFTReal
 
 namespace AoVerif.Props.C09
 open Finset AoVerif AoVerif.Fourier AoVerif.DFT
@@ -164,6 +165,44 @@ theorem parseval {n : ℕ} {ζ : ℂ} (hζ : IsPrimitiveRoot ζ n) (hn : 0 < n) 
 theorem fft_root_primitive {n : ℕ} (hn : 0 < n) :
     IsPrimitiveRoot (Complex.exp (2 * Real.pi * Complex.I / n))⁻¹ n :=
   (Complex.isPrimitiveRoot_exp n (by omega)).inv
+
+/-! ### real-input variants -/
+
+variable {n : ℕ} {ζ : ℂ}
+
+/-- **real variants are an inverse pair for even lengths**: `irft(rft(x, δ), 1/(nδ)) = x` for real `x` -/
+theorem irft_rft (hζ : IsPrimitiveRoot ζ n) (hn : 0 < n) (heven : n % 2 = 0) (δ δf : ℝ) (hδ : (n:ℝ) * δ * δf = 1)
+    (x : ℕ → ℂ) (hx : ∀ j, (starRingEnd ℂ) (x j) = x j) {j : ℕ} (hj : j < n) :
+    irft (n / 2 + 1) (fun m => ζ⁻¹ ^ m) (1 / (n:ℂ)) (starRingEnd ℂ) (((2 * (n / 2 + 1 - 1) : ℕ)) : ℂ) (δf:ℂ)
+      (rft n (fun m => ζ ^ m) (δ:ℂ) x) j = x j := by
+  have h2 : 2 * (n / 2 + 1 - 1) = n := by omega
+  have hnC : (n:ℂ) ≠ 0 := natCast_ne_zero hζ hn
+  unfold irft
+  rw [h2]
+  unfold ifftshift irfft
+  set u : ℕ → ℂ := fftshift n x with hu
+  have hureal : ∀ j, (starRingEnd ℂ) (u j) = u j := fun j => hx _
+  -- the Hermitian completion of the (un-shifted) half-spectrum is the full spectrum of `u`, times δ
+  have hfull : ∀ k < n, hermComplete n (starRingEnd ℂ)
+      (fun k => rft n (fun m => ζ ^ m) (δ:ℂ) x ((k + (n / 2 + 1) / 2) % (n / 2 + 1))) k
+      = dft n (fun m => ζ ^ m) u k * (δ:ℂ) := by
+    intro k hk
+    have hG : ∀ q, q < n / 2 + 1 → rft n (fun m => ζ ^ m) (δ:ℂ) x ((q + (n / 2 + 1) / 2) % (n / 2 + 1))
+        = dft n (fun m => ζ ^ m) u q * (δ:ℂ) := by
+      intro q hq
+      unfold rft rfft
+      show dft n (fun m => ζ ^ m) (fftshift n x) (((q + (n / 2 + 1) / 2) % (n / 2 + 1) + (n / 2 + 1 - (n / 2 + 1) / 2)) % (n / 2 + 1)) * (δ:ℂ) = _
+      rw [shift_cancel _ _ hq]
+    unfold hermComplete
+    split_ifs with hle
+    · exact hG k (by omega)
+    · show (starRingEnd ℂ) (rft n (fun m => ζ ^ m) (δ:ℂ) x ((n - k + (n / 2 + 1) / 2) % (n / 2 + 1))) = _
+      rw [hG (n - k) (by omega), map_mul, Complex.conj_ofReal, dft_herm hζ hn u hureal (by omega)]
+  rw [idft_congr' _ _ hfull, idft_mul_const, idft_dft hζ hn u (Nat.mod_lt _ hn)]
+  simp only [hu, fftshift]
+  rw [shift_cancel _ _ hj]
+  have : ((n:ℂ)) * (δ:ℂ) * (δf:ℂ) = 1 := by exact_mod_cast hδ
+  linear_combination (x j) * this
 
 end complex
 
